@@ -469,7 +469,7 @@ PROPS = {
         "assumptions": COV_ASSUME,
         "stages": [
             {"kind": "mc", "module": "MC_Coverage", "cfg": "MC_Coverage.cfg", "workers": 6},
-            {"kind": "rec", "profiles": ["release", "debug"], "other_profile_frac": 0.5, "scenario": "C13", "count": {"quick": 6000, "thorough": 150000}, "trace_module": "Trace_Bmoc", "trace_cfg": "Trace_Bmoc.cfg", "shards": 10},
+            {"kind": "rec", "profiles": ["release", "debug"], "other_profile_frac": 0.5, "scenario": "C13", "count": {"quick": 12000, "thorough": 150000}, "trace_module": "Trace_Bmoc", "trace_cfg": "Trace_Bmoc.cfg", "shards": 10},
         ],
     },
     # Behaviour of the public API that none of the listed properties names, specified and checked all the same (DESIGN section 16).
